@@ -159,13 +159,32 @@ def run(ctx):
     # ---- C12.5: keys read from the options ------------------------------------------------------------------------------
     read_keys = set()
     defaults: Dict[str, str] = {}
-    for n in ast.walk(fi.node):
-        if isinstance(n, ast.Call) and isinstance(n.func, ast.Attribute) and n.func.attr == "get" and isinstance(n.func.value, ast.Name) \
-                and n.func.value.id == fi.params[1] and n.args and isinstance(n.args[0], ast.Constant):
-            read_keys.add(n.args[0].value)
-            defaults[n.args[0].value] = core.src(n.args[1]) if len(n.args) > 1 else "None"
-    ctx.ob("C12.5", f"{CELL} reads the options 'closed_ring' and 'segments'", core.DISCHARGED if {"closed_ring", "segments"} <= read_keys else core.VIOLATED,
-           where, f"keys read: {sorted(read_keys)} with defaults {defaults}")
+
+    def keys_read(fn_info, pname):
+        for n in ast.walk(fn_info.node):
+            if isinstance(n, ast.Call) and isinstance(n.func, ast.Attribute) and n.func.attr in ("get", "setdefault", "pop") and isinstance(n.func.value, ast.Name) \
+                    and n.func.value.id == pname and n.args and isinstance(n.args[0], ast.Constant):
+                read_keys.add(n.args[0].value)
+                if n.func.attr == "get":
+                    defaults[n.args[0].value] = core.src(n.args[1]) if len(n.args) > 1 else "None"
+            if isinstance(n, ast.Subscript) and isinstance(n.value, ast.Name) and n.value.id == pname and isinstance(n.slice, ast.Constant):
+                read_keys.add(n.slice.value)
+            if isinstance(n, ast.Compare) and isinstance(n.left, ast.Constant) and any(isinstance(c, ast.Name) and c.id == pname for c in n.comparators):
+                read_keys.add(n.left.value)
+            # the options object handed on to a helper
+            if isinstance(n, ast.Call):
+                for cs in model.calls.get(fn_info.qual, []):
+                    if cs.node is n and cs.kind == "func" and len(cs.callees) == 1:
+                        for ai, a in enumerate(n.args):
+                            if isinstance(a, ast.Name) and a.id == pname:
+                                callee = model.funcs[cs.callees[0]]
+                                if ai < len(callee.params) and callee.qual != fn_info.qual and callee.qual not in seen_fns:
+                                    seen_fns.add(callee.qual)
+                                    keys_read(callee, callee.params[ai])
+    seen_fns = {fi.qual}
+    keys_read(fi, fi.params[1])
+    ctx.ob("C12.5", f"{CELL} reads the options 'closed_ring' and 'segments'", core.DISCHARGED if {"closed_ring", "segments"} <= read_keys else core.UNDECIDED,
+           where, f"keys read: {sorted(map(str, read_keys))} with defaults {defaults}")
     # ---- C12.6: the example's use site spells the keys as the callee reads them -------------------------------------------
     ex = "examples/wireframe/index.py"
     if ctx.sources.has(ex):
@@ -176,7 +195,7 @@ def run(ctx):
                 sites += 1
                 keys = [k.value for k in n.args[1].keys if isinstance(k, ast.Constant)]
                 unknown = [k for k in keys if k not in read_keys]
-                ctx.ob("C12.6", f"{ex}: options {keys} are keys the callee reads", core.DISCHARGED if not unknown else core.VIOLATED,
+                ctx.ob("C12.6", f"{ex}: options {keys} are keys the callee reads", core.DISCHARGED if not unknown else (core.VIOLATED if read_keys else core.UNDECIDED),
                        f"{ex}:{n.lineno}", f"unknown keys {unknown} would be ignored silently" if unknown else f"callee reads {sorted(read_keys)}")
         ctx.analysed["example_call_sites"] = sites
     ctx.analysed.update({"configurations": n_cfg, "resolutions": RESOLUTIONS})
